@@ -624,8 +624,12 @@ class BzrUploader:
                     # deletions are differed.
                     self.upload_file(change.path[0], change.path[1])
                 self.rename_remote(change.path[0], change.path[1])
-            self.finish_renames()
+            # Directories that could not be removed above because they were not
+            # empty yet are empty now (their files are deleted, or parked under
+            # temporary names); they must be gone before a renamed entry takes
+            # over one of their names.
             self.finish_deletions()
+            self.finish_renames()
 
             for change in changes.kind_changed:
                 if self.is_ignored(change.path[1]):
